@@ -75,6 +75,14 @@ def weak_models(tier):
             if 'replace_node' in ops or 'set_attr_node' in ops:
                 continue
             out.append(('weak', 'adv-' + fam, s))
+    # a class that occurs in an annotation but was not given to load_function(): yatiml reports it with a
+    # RecognitionError ("is it registered?"), which like every RecognitionError has to say where in the document it gave up
+    un = {'name': 'Un', 'params': [('p', 'int')], 'registered': False}
+    for root, extra_cls in ((('cls', 'K'), {'name': 'K', 'params': [('x', 'int'), ('u', ('cls', 'Un'))]}),
+                            (('cls', 'K'), {'name': 'K', 'params': [('x', 'int'), ('l', ('list', ('cls', 'Un')), None)]}),
+                            (('cls', 'K'), {'name': 'K', 'params': [('u', ('union', [('cls', 'Un'), 'int'])), ('d', ('dict', 'str', ('cls', 'Un')), None)]}),
+                            (('list', ('cls', 'Un')), None), (('dict', 'str', ('opt', ('cls', 'Un'))), None)):
+        out.append(('weak', 'unregistered-type', {'classes': catalog.BASE + [un] + ([extra_cls] if extra_cls else []), 'root': root}))
     # constructors and hooks that raise: the RecognitionError is made by yatiml around them
     for exc in ('ValueError', 'KeyError', 'TypeError', 'ValueError!', 'AssertionError'):
         out.append(('weak', 'raising', {'classes': catalog.BASE + [{'name': 'K', 'params': [('x', 'int')], 'raises': exc}],
